@@ -56,7 +56,12 @@ func genC15Sys(t *rapid.T) c15sCase {
 			c.Ops = append(c.Ops, op{K: "restart"})
 		case "sched":
 			x := op{K: "sched", Loc: loc, Id: id, N: rapid.SampledFrom([]int64{1e9, 2e9, 3500e6}).Draw(t, l+".d"), B: rapid.IntRange(0, 3).Draw(t, l+".recurring") == 0}
-			if rapid.IntRange(0, 4).Draw(t, l+".bounded") == 0 {
+			if rapid.IntRange(0, 7).Draw(t, l+".past") == 0 {
+				// a schedule whose only occurrences lie in the past: the
+				// rule is refused, or it exists and never runs
+				x.B = false
+				x.Doc = M{"past": true}
+			} else if rapid.IntRange(0, 4).Draw(t, l+".bounded") == 0 {
 				// a cron expression with exactly one occurrence, N from
 				// now (rounded up to a full second): afterwards the
 				// schedule has run out, but the rule is still there
@@ -86,6 +91,7 @@ type c15sGen struct {
 	restarted    bool
 	recurring    bool
 	bounded      bool // a cron expression with exactly one occurrence
+	never        bool // a cron expression whose occurrences all lie in the past
 	due          time.Time
 	removedAt    time.Time
 }
@@ -231,6 +237,13 @@ func runC15Sys(c c15sCase) *vlib.Outcome {
 				g.due = at
 				o.Label("bounded-schedule")
 			}
+			past, _ := x.Doc["past"].(bool)
+			if past {
+				sched = "0 0 0 1 1 * 2001"
+				g.recurring = true
+				g.never = true
+				o.Label("past-schedule")
+			}
 			rule := M{"schedule": sched, "action": M{"code": fmt.Sprintf("Env.record('%s' + (location == Env.Location ? '' : '!location=' + location) + (ruleId == '%s' ? '' : '!ruleId=' + ruleId), Env.Location); Env.AddFact('', {fired: '%s'}); 'ok'", tag, x.Id, tag)}}
 			if c.Parent {
 				// the condition looks at the facts, the parent's included
@@ -238,6 +251,12 @@ func runC15Sys(c c15sCase) *vlib.Outcome {
 			}
 			js, _ := json.Marshal(rule)
 			if _, err := s.AddRule(clientCtx(), x.Loc, x.Id, string(js)); err != nil {
+				if past {
+					// refused: nothing has changed, the rule that was
+					// there (if any) stays and keeps its job
+					o.Label("past-schedule-refused")
+					continue
+				}
 				o.Fail("ADDRULE_ERROR", "%s: %v", when, err)
 				return o
 			}
@@ -361,6 +380,12 @@ func runC15Sys(c c15sCase) *vlib.Outcome {
 		n := fired[g.loc][g.tag]
 		if fired[other][g.tag] > 0 {
 			o.Fail("SCHEDULED_RULE_RAN_IN_WRONG_LOCATION", "rule %s of location %s ran in location %s; %s", g.tag, g.loc, other, hist())
+		}
+		if g.never {
+			if n > 0 {
+				o.Fail("SCHEDULED_RULE_RAN_WHEN_NOT_DUE", "rule %s has a schedule without any occurrence from now on (1 January 2001) and ran %d times; %s", g.tag, n, hist())
+			}
+			continue
 		}
 		removedBeforeDue := !g.removedAt.IsZero() && g.removedAt.Before(g.firstDue)
 		if removedBeforeDue && n > 0 {
